@@ -731,6 +731,7 @@ pub struct Ctx {
     pub poisoned: bool,
     pub epfd: RawFd,
     pub opts: Opts,
+    pub signal: Option<calloop::LoopSignal>,
 }
 
 const K_PING: usize = 0;
@@ -1482,6 +1483,13 @@ impl Ctx {
                     self.finish_unit(r);
                 }
             }
+            Op::Wakeup => {
+                if let Some(sig) = &self.signal {
+                    sh.push(Ev::Op(ROp::Wakeup));
+                    sig.wakeup();
+                    sh.push(Ev::OpRes(Res::Ok));
+                }
+            }
             Op::DropIdleHandle { idle } => {
                 let Some(i) = pick(*idle, self.idles.len()) else { return };
                 if let Some(h) = self.idles[i].handle.take() {
@@ -1742,6 +1750,7 @@ pub fn run_history(case: &HistCase, opts: Opts) -> Vec<Ev> {
         poisoned: false,
         epfd,
         opts,
+        signal: Some(el.get_signal()),
     };
     // the two fds the polling crate registers for itself show up first
     ctx.snapshot(true);
